@@ -403,6 +403,28 @@ func c18Units(tier string, seed int64) []Unit {
 			addF(r.lo, r.hi)
 		}
 	}
+	// the 32-bit twins, where both bounds are float32 values (infinite bounds included)
+	for _, r := range append(append([]fr{}, frs...), fr{0, inf}, fr{-inf, 0}, fr{-inf, -3}, fr{float64(float32(math.MaxFloat32)), inf}) {
+		lo32, hi32 := float32(r.lo), float32(r.hi)
+		if r.lo == r.hi || float64(lo32) != r.lo || float64(hi32) != r.hi {
+			continue
+		}
+		g := rapid.Float32Range(lo32, hi32)
+		w := []string{fmt.Sprint(lo32), fmt.Sprint(hi32)}
+		if lo32 < 0 && hi32 > 0 {
+			w = append(w, "0")
+		}
+		ers = append(ers, er{fmt.Sprintf("Float32Range(%g,%g)", lo32, hi32), func(s int) string {
+			v := g.Example(s)
+			if v == 0 {
+				v = 0
+			}
+			return fmt.Sprint(v)
+		}, w})
+	}
+	for _, r := range []fr{{0, inf}, {-inf, 0}, {-inf, -3}} {
+		addF(r.lo, r.hi)
+	}
 	ers = append(ers,
 		er{"Float64Max(0)", func(s int) string { return fmt.Sprint(rapid.Float64Max(0).Example(s)) }, []string{fmt.Sprint(-math.MaxFloat64)}},
 		er{"Float64Min(0)", func(s int) string { return fmt.Sprint(rapid.Float64Min(0).Example(s)) }, []string{fmt.Sprint(math.MaxFloat64)}},
@@ -421,6 +443,29 @@ func c18Units(tier string, seed int64) []Unit {
 		er{"Uint32Min(1)", func(s int) string { return fmt.Sprint(rapid.Uint32Min(1).Example(s)) }, []string{"1", "4294967295"}},
 		er{"ByteMin(250)", func(s int) string { return fmt.Sprint(rapid.ByteMin(250).Example(s)) }, []string{"250", "255"}},
 		er{"UintptrMax(3)", func(s int) string { return fmt.Sprint(rapid.UintptrMax(3).Example(s)) }, []string{"0", "3"}},
+		// every kind: the full-range generator and its one-sided shorthands reach the kind's own limits
+		er{"Uint()", func(s int) string { return fmt.Sprint(rapid.Uint().Example(s)) }, []string{"0", fmt.Sprint(uint(math.MaxUint))}},
+		er{"Uint8()", func(s int) string { return fmt.Sprint(rapid.Uint8().Example(s)) }, []string{"0", "255"}},
+		er{"Byte()", func(s int) string { return fmt.Sprint(rapid.Byte().Example(s)) }, []string{"0", "255"}},
+		er{"Uint32()", func(s int) string { return fmt.Sprint(rapid.Uint32().Example(s)) }, []string{"0", "4294967295"}},
+		er{"Uint64()", func(s int) string { return fmt.Sprint(rapid.Uint64().Example(s)) }, []string{"0", fmt.Sprint(uint64(math.MaxUint64))}},
+		er{"Uintptr()", func(s int) string { return fmt.Sprint(rapid.Uintptr().Example(s)) }, []string{"0", fmt.Sprint(^uintptr(0))}},
+		er{"UintMin(1)", func(s int) string { return fmt.Sprint(rapid.UintMin(1).Example(s)) }, []string{"1", fmt.Sprint(uint(math.MaxUint))}},
+		er{"Uint8Min(1)", func(s int) string { return fmt.Sprint(rapid.Uint8Min(1).Example(s)) }, []string{"1", "255"}},
+		er{"Uint16Min(1)", func(s int) string { return fmt.Sprint(rapid.Uint16Min(1).Example(s)) }, []string{"1", "65535"}},
+		er{"UintptrMin(1000)", func(s int) string { return fmt.Sprint(rapid.UintptrMin(1000).Example(s)) }, []string{"1000", fmt.Sprint(^uintptr(0))}},
+		er{"Uint64Max(9)", func(s int) string { return fmt.Sprint(rapid.Uint64Max(9).Example(s)) }, []string{"0", "9"}},
+		er{"Uint32Max(9)", func(s int) string { return fmt.Sprint(rapid.Uint32Max(9).Example(s)) }, []string{"0", "9"}},
+		er{"Int()", func(s int) string { return fmt.Sprint(rapid.Int().Example(s)) }, []string{fmt.Sprint(math.MinInt), fmt.Sprint(math.MaxInt), "0"}},
+		er{"Int16()", func(s int) string { return fmt.Sprint(rapid.Int16().Example(s)) }, []string{"-32768", "32767", "0"}},
+		er{"Int64()", func(s int) string { return fmt.Sprint(rapid.Int64().Example(s)) }, []string{fmt.Sprint(int64(math.MinInt64)), fmt.Sprint(int64(math.MaxInt64)), "0"}},
+		er{"IntMin(-7)", func(s int) string { return fmt.Sprint(rapid.IntMin(-7).Example(s)) }, []string{"-7", fmt.Sprint(math.MaxInt), "0"}},
+		er{"Int8Min(-7)", func(s int) string { return fmt.Sprint(rapid.Int8Min(-7).Example(s)) }, []string{"-7", "127", "0"}},
+		er{"Int32Max(5)", func(s int) string { return fmt.Sprint(rapid.Int32Max(5).Example(s)) }, []string{"5", "-2147483648", "0"}},
+		er{"Int8Max(5)", func(s int) string { return fmt.Sprint(rapid.Int8Max(5).Example(s)) }, []string{"5", "-128", "0"}},
+		er{"Int16Range(-32768,32767)", func(s int) string { return fmt.Sprint(rapid.Int16Range(-32768, 32767).Example(s)) }, []string{"-32768", "32767", "0"}},
+		er{"Uint32Range(0,4294967295)", func(s int) string { return fmt.Sprint(rapid.Uint32Range(0, 4294967295).Example(s)) }, []string{"0", "4294967295"}},
+		er{"UintptrRange(5,max)", func(s int) string { return fmt.Sprint(rapid.UintptrRange(5, ^uintptr(0)).Example(s)) }, []string{"5", fmt.Sprint(^uintptr(0))}},
 		er{"Int8()", func(s int) string { return fmt.Sprint(rapid.Int8().Example(s)) }, []string{"-128", "127", "0"}},
 		er{"Uint16()", func(s int) string { return fmt.Sprint(rapid.Uint16().Example(s)) }, []string{"0", "65535"}},
 		er{"Int32()", func(s int) string { return fmt.Sprint(rapid.Int32().Example(s)) }, []string{"-2147483648", "2147483647", "0"}},
